@@ -182,6 +182,21 @@ PROPS["C11"] = dict(
     trusted=COMMON_TRUST, excluded=["liveness: 'no request waits forever / promptly' (busy-poll wake-ups, broadcast delivery)"],
 )
 
+PROPS["C10"] = dict(
+    units=["cache"],
+    title="Cache hits return the latest unexpired value of the right key; size bounded",
+    level_text="Deductive proof (Verus) on the real bodies of CacheEntry::{new,is_expired}, CacheStore::{new,get,insert,len} (whole-map postconditions over the abstract view of the eviction container: a hit returns the value stored "
+               "under that key iff it is not older than the TTL on the explicit clock, an expired entry is removed and misses, insert stores the value under its key stamped now and changes no other key's value) and Cache::call "
+               "(lookup and store use the request's own key; a hit makes no inner call and stores nothing; a miss makes exactly one; a success is returned and stored once; an error is returned unchanged and never stored); "
+               "CacheStore::new picks the container the policy names with capacity max_size; clones and the shared layer share one store.",
+    level_note="The three eviction containers are an ASSUMED contract (abstract map with a capacity): len <= max_size and 'the victim is the one the policy names' are NOT proved (LRU is an external crate; LFU/FIFO use iterator adapters, "
+               "entry API and VecDeque::retain outside the dialect; Kani on HashMap-based code does not terminate here). 'Latest value' follows from map semantics of the view.",
+    technique="contract-based deductive verification (Verus): abstract-map contracts on the store, effect trace on call",
+    design_ref="§6 C10",
+    assumptions=["EvictionStore contract for LruStore/LfuStore/FifoStore", "std Mutex critical sections are atomic", "monotone clock", "key extractor is a pure function"],
+    trusted=COMMON_TRUST, excluded=["size bound and victim choice of the three eviction containers (assumed contract, not proved)", "concurrent misses on the same key each call the inner service (consistent with the statement)"],
+)
+
 NOT_APPLICABLE = {
     "C12": "not built: hedge's body is a tokio::select! loop over spawned tasks; needs the select!/spawn rewrite R17 (DESIGN §7); nothing weaker is claimed in its place",
 }
